@@ -11,6 +11,19 @@ TRUSTED_BASE_COMMON = [
 ]
 
 
+def summarise_axioms(axioms):
+    out, prim = [], {}
+    for a in axioms:
+        head = a.split('.')[0]
+        if head in ('PrimInt63', 'Uint63', 'PrimFloat', 'FloatAxioms', 'FloatOps', 'SpecFloat'):
+            prim[head] = prim.get(head, 0) + 1
+        else:
+            out.append('axiom used (standard library): ' + a)
+    for h, n in sorted(prim.items()):
+        out.append('kernel primitives / their standard-library specification axioms: %s.* (%d names, via Bignums / Interval)' % (h, n))
+    return out
+
+
 class Ctx:
     def __init__(self, pid, tier, seed):
         self.pid, self.tier, self.seed = pid, tier, seed
@@ -120,7 +133,7 @@ def main(argv=None):
         'checker_cmd': 'make -C /verif coq  (coq_makefile, full .vo build) && coqc -Q coq/theories Dendro coq/props/%s.v  (re-checked in this run)' % pid,
         'trusted_base': TRUSTED_BASE_COMMON + getattr(mod, 'TRUSTED', []) +
                         ['Print Assumptions: %d theorem(s) closed under the global context' % closed] +
-                        ['axiom used: ' + x for x in axioms],
+                        summarise_axioms(axioms),
         'theorems': thms,
         'evaluations': ctx.evaluations,
         'distinct_nontrivial': len(ctx.nontrivial_keys),
